@@ -30,13 +30,15 @@
                         reader is blocked sending (recvChan unbuffered: ReadBufferSize = 0)
      OWrite           = sharedPacketConn.WriteTo -> tcpPacketConn.WriteTo -> writeStreamingPacket
      OGet             = TCPMuxDefault.GetConnByUfrag (closed check, getConn + ClearAliveTimer, or
-                        createConn(fromStun=false)); NOTE no test whether the found conn is closed
+                        createConn(fromStun=false)); NOTE in the pinned code (cf_byid = false) no test
+                        whether the found conn is closed
      ORemove          = TCPMuxDefault.RemoveConnByUfrag (delete both families, close what was removed)
      OHClose          = sharedPacketConn.Close (closeOnce; refs.Add(-1) <= 0 => underlying.Close())
      OExpire          = the alive timer of a provisional tcpPacketConn firing: packet.Close()
      OWatcher         = the goroutine started by createConn after <-conn.CloseChannel():
-                        removeConnByUfragAndLocalHost(ufrag, connKey) -- removal is BY KEY in both
-                        families, whatever packet conn is registered there now, and closes it
+                        removeConnByUfragAndLocalHost(ufrag, connKey) -- in the pinned code
+                        (cf_byid = false) removal is BY KEY in both families, whatever packet conn is
+                        registered there now, and closes it; with the repair only the conn itself
      OAcceptExit      = Listener.Accept returning an error after Listener.Close: start returns
      OMuxClose        = TCPMuxDefault.Close up to m.mu.Unlock
      OMuxCloseReturn  = m.wg.Wait() returning (enabled iff accept loop, every handleConn and every
@@ -117,8 +119,12 @@ Record cfg := mkCfg {
   cf_alive : bool;              (* AliveDurationForConnFromStun > 0 (0 is replaced by 30 s) *)
   cf_wbuf : bool;               (* WriteBufferSize > 0 *)
   cf_addr_ok : bool;            (* Listener.Addr() is a net.TCPAddr pointer *)
-  cf_wdrop : bool }.            (* bufferedConn.writeProcess reads into a receiveMTU-sized slice (the pinned
+  cf_wdrop : bool;              (* bufferedConn.writeProcess reads into a receiveMTU-sized slice (the pinned
                                    code; false once it has room for the 2-byte header too): probed by the harness *)
+  cf_byid : bool }.             (* false = the pinned code: removeConnByUfragAndLocalHost removes whatever is
+                                   registered under the key and getConn returns closed conns too; true = the
+                                   repair (findings/proposed/C15-tcpmux-stale-conn.diff): removal only of the
+                                   conn the watcher was started for, getConn ignores closed conns.  Probed. *)
 
 Record state := mkS {
   cids : list nat; conn : nat -> tconn;
@@ -170,6 +176,13 @@ Definition close_pcs (s : state) (sel : nat -> bool) : state :=
 
 Definition mapped (s : state) (q : nat) : bool :=
   oeqb (mp s (p_ufrag (pc s q)) (p_is6 (pc s q)) (p_ip (pc s q))) q.
+
+(* getConn *)
+Definition lookup (cf : cfg) (s : state) (u : string) (is6 : bool) (ip : string) : option nat :=
+  match mp s u is6 ip with
+  | Some p => if cf_byid cf && p_closed (pc s p) then None else Some p
+  | None => None
+  end.
 
 (* createConn *)
 Definition create_pc (s : state) (u : string) (is6 : bool) (ip : string) (stun : bool) (timer : bool) (refs : Z) : state :=
@@ -246,7 +259,7 @@ Definition step (cf : cfg) (s : state) (o : op) : state * out :=
         let routed p :=
           mkT (c_raddr c) (c_is6 c) (c_lip c) (c_addr_ok c) (PRouted p b) None None None (c_stream c)
               (c_cli_closed c) false false (c_out c) [b] [] (Some p) false in
-        match mp s u (c_is6 c) (c_lip c) with
+        match lookup cf s u (c_is6 c) (c_lip c) with
         | Some p => (set_one s cid (routed p), XOk)
         | None =>
           if cf_addr_ok cf then
@@ -355,7 +368,7 @@ Definition step (cf : cfg) (s : state) (o : op) : state * out :=
     end
   | OGet h u is6 ip =>
     if mclosed s then (s, XErr) else
-    match mp s u is6 ip with
+    match lookup cf s u is6 ip with
     | Some p =>
       let q := pc s p in
       (set_hnd (set_pc s (upd (pc s) p (mkP (p_ufrag q) (p_is6 q) (p_ip q) (p_closed q) false (p_watcher q)
@@ -435,12 +448,15 @@ Definition step (cf : cfg) (s : state) (o : op) : state * out :=
   | OWatcher p =>
     let q := pc s p in
     if Nat.ltb p (npc s) && p_watcher q && p_closed q then
-      let sel r := (oeqb (mp s (p_ufrag q) false (p_ip q)) r || oeqb (mp s (p_ufrag q) true (p_ip q)) r) in
+      let sel r := if cf_byid cf then false
+                   else (oeqb (mp s (p_ufrag q) false (p_ip q)) r || oeqb (mp s (p_ufrag q) true (p_ip q)) r) in
       let s1 := close_pcs s sel in
       let q1 := pc s1 p in
       let s2 := set_pc s1 (upd (pc s1) p (mkP (p_ufrag q1) (p_is6 q1) (p_ip q1) (p_closed q1) (p_timer q1) false
                                               (p_refs q1) (p_stun q1))) in
-      (set_mp s2 (fun u' f i => if String.eqb u' (p_ufrag q) && String.eqb i (p_ip q) then None else mp s u' f i), XOk)
+      (set_mp s2 (fun u' f i =>
+                    if cf_byid cf then (if oeqb (mp s u' f i) p then None else mp s u' f i)
+                    else if String.eqb u' (p_ufrag q) && String.eqb i (p_ip q) then None else mp s u' f i), XOk)
     else (s, XSkip)
   | OAcceptExit =>
     if acc_alive s && negb (lopen s) then
